@@ -105,18 +105,13 @@ Fixpoint sortedb {A} (le : A -> A -> bool) (l : list A) : bool :=
   | _ => true
   end.
 
-Definition triple_of_id (id : Z) : option (kind * Z * Z) :=
-  match kind_of_name (ObjectID_Type id) with
-  | Some k => Some (k, ObjectID_Ref id, ObjectID_Version id)
-  | None => None
-  end.
-
-Fixpoint all_some {A} (l : list (option A)) : option (list A) :=
+(* insertion sort of the INPUT triples by the spec order (kind rank, ref, version) *)
+Fixpoint insert_lex (x : kind * Z * Z) (l : list (kind * Z * Z)) : list (kind * Z * Z) :=
   match l with
-  | [] => Some []
-  | Some a :: r => match all_some r with Some r' => Some (a :: r') | None => None end
-  | None :: _ => None
+  | [] => [x]
+  | y :: r => if lex_leb x y then x :: l else y :: insert_lex x r
   end.
+Definition lex_sort (l : list (kind * Z * Z)) : list (kind * Z * Z) := fold_right insert_lex [] l.
 
 Definition ptriple : P (kind * Z * Z) := k <- pkind ;; r <- pint ;; v <- pint ;; ret (k, r, v).
 
@@ -124,15 +119,11 @@ Definition check_sort : P (list Z) :=
   which <- pint ;; inp <- plist ptriple ;; obs <- plist pint ;;
   let ids := map (fun '(k, r, v) => if which =? 1 then feature_id k r else element_id k r v) inp in
   let j1 := list_eqb Z.eqb (isort ids) obs in
-  (* oracle: the observed ids decode (with the SPEC decoder = arithmetic) to triples sorted by
-     (kind, ref, version) and are a permutation of the input triples' packed values *)
-  let spec_ids := map (fun '(k, r, v) => pack k r (if which =? 1 then 0 else v)) inp in
-  let j2 :=
-    list_eqb Z.eqb (isort spec_ids) (isort obs) &&
-    match all_some (map triple_of_id obs) with
-    | Some ts => sortedb lex_leb ts
-    | None => false
-    end in
+  (* oracle, independent of every function translated from /repo: sort the INPUT triples by
+     (kind, reference, version) with the spec order and pack them arithmetically; the observed
+     list must be exactly that *)
+  let norm := map (fun '(k, r, v) => (k, r, if which =? 1 then 0 else v)) inp in
+  let j2 := list_eqb Z.eqb (map (fun '(k, r, v) => pack k r v) (lex_sort norm)) obs in
   ret (code_if j1 1 ++ code_if j2 2)%list.
 
 (* ---- PARSE ---- *)
